@@ -21,10 +21,14 @@ import (
 
 	"github.com/0xPolygon/cdk-contracts-tooling/contracts/pp/l2-sovereign-chain/polygonrollupmanager"
 	v1types "buf.build/gen/go/agglayer/interop/protocolbuffers/go/agglayer/interop/types/v1"
+	v1nodetypes "buf.build/gen/go/agglayer/agglayer/protocolbuffers/go/agglayer/node/types/v1"
 	agglayergrpc "github.com/agglayer/aggkit/agglayer/grpc"
 	agglayertypes "github.com/agglayer/aggkit/agglayer/types"
 	"github.com/agglayer/aggkit/aggsender"
+	"github.com/agglayer/aggkit/aggsender/aggchainproofclient"
 	aggsenderconfig "github.com/agglayer/aggkit/aggsender/config"
+	aggsenderdb "github.com/agglayer/aggkit/aggsender/db"
+	"github.com/agglayer/aggkit/aggsender/flows"
 	aggsendertypes "github.com/agglayer/aggkit/aggsender/types"
 	"github.com/agglayer/aggkit/bridgesync"
 	cfgtypes "github.com/agglayer/aggkit/config/types"
@@ -164,6 +168,14 @@ func SenderConfig(prop string, r *Rand, tier string) map[string]int64 {
 		c["w_fault"], c["w_lost"], c["w_crash"], c["w_losedb"], c["w_savefault"] = 0, 0, 0, 0, 0
 	}
 	c["big_meta"] = int64(r.Intn(2))
+	// signing scheme / flow: 0 = pessimistic proof, 1 = aggchain prover (FEP)
+	c["fep"] = 0
+	c["w_pvodd"] = 0
+	if r.Bool(40) {
+		c["fep"] = 1
+		c["w_pvodd"] = int64(r.Range(0, 8))
+		c["one_bridge"] = 0
+	}
 	c["real_proofs"] = 0
 	if prop == "C09" || r.Bool(30) {
 		c["real_proofs"] = 1
@@ -200,6 +212,11 @@ type senderWorld struct {
 	// world-level reference for claims
 	usedLeaves map[uint32]bool
 	cw         *claimWorld
+	// aggchain-prover flow
+	pv    *proverModel
+	optOn bool
+	// set when the node's Start goroutine panicked (deliberate fail-stop at start-up)
+	panicMsg string
 }
 
 // senderOwns: which oracle groups a property's check reports. The same runs feed six properties;
@@ -328,8 +345,20 @@ func (s *senderWorld) startNode() *Violation {
 		MaxL2BlockNumber:                uint64(s.cfg["max_l2_block"]),
 	}
 	client := agglayergrpc.NewAgglayerGRPCClientWithServices(cfg.AgglayerClient, s.ag, s.ag, s.ag)
-	node, err := aggsender.New(ctx, log.WithFields("module", "aggsender"), cfg, client, s.l1s.F, s.l2r, s.ep,
-		&FakeClient{W: s.w, C: s.l1, Label: "l1", Epoch: s.w.Epoch}, nil, rollupDataStub{})
+	l1c := &FakeClient{W: s.w, C: s.l1, Label: "l1", Epoch: s.w.Epoch}
+	logger := log.WithFields("module", "aggsender")
+	var node *aggsender.AggSender
+	var err error
+	if s.cfg["fep"] == 1 {
+		cfg.Mode = "AggchainProof"
+		s.pv.epoch = s.w.Epoch
+		pc := aggchainproofclient.NewAggchainProofClientWithService(&aggkitgrpc.ClientConfig{RequestTimeout: cfgtypes.NewDuration(time.Hour)}, s.pv)
+		node, err = aggsender.NewVerifWithFlow(ctx, logger, cfg, client, s.l2r, s.ep, func(storage aggsenderdb.AggSenderStorage) (aggsendertypes.AggsenderFlow, error) {
+			return flows.VerifNewAggchainProverFlow(ctx, cfg, logger, storage, l1c, s.l1s.F, s.l2r, rollupDataStub{}, pc, gerReaderStub{s}, 0, optModeStub{s}, optSignerStub{})
+		})
+	} else {
+		node, err = aggsender.New(ctx, logger, cfg, client, s.l1s.F, s.l2r, s.ep, l1c, nil, rollupDataStub{})
+	}
 	if err != nil {
 		return &Violation{Oracle: "harness", Detail: "aggsender.New: " + err.Error()}
 	}
@@ -560,16 +589,44 @@ func (s *senderWorld) onSubmit(sub *Submission) {
 		return
 	}
 	// ---- C10: the signature commits to what is sent ----
-	var giHashes []byte
-	for _, ibe := range c.ImportedBridgeExits {
-		h := keccakBytes(leBytes(wireGlobalIndex(ibe)))
-		giHashes = append(giHashes, h[:]...)
-	}
-	inner := keccakBytes(giHashes)
-	commitment := keccakBytes(pad(c.NewLocalExitRoot.Value, 32), inner[:])
+	var commitment common.Hash
 	var sig []byte
-	if c.AggchainData != nil && c.AggchainData.GetSignature() != nil {
-		sig = c.AggchainData.GetSignature().Value
+	switch {
+	case c.AggchainData != nil && c.AggchainData.GetGeneric() != nil:
+		// aggchain-proof scheme: the prover's answer arrives unchanged and the signature covers the FEP commitment
+		g := c.AggchainData.GetGeneric()
+		commitment = wireFEPCommitment(c)
+		if g.Signature != nil {
+			sig = g.Signature.Value
+		}
+		var pr *proverResp
+		for _, x := range s.pv.Resps {
+			if x.Params == fb32(g.AggchainParams) {
+				pr = x
+			}
+		}
+		sp := g.GetSp1Stark()
+		if pr == nil || sp == nil || string(sp.Proof) != string(pr.Proof) || string(sp.Vkey) != string(pr.Vkey) || sp.Version != pr.Version ||
+			fmt.Sprint(g.Context) != fmt.Sprint(pr.Context) || string(c.CustomChainData) != string(pr.Custom) {
+			s.fail("signature", "c10/aggchain-data-differs", "certificate at height %d: the aggchain proof, its parameters, context or the custom chain data are not those of any answer of the prover", c.Height)
+			return
+		}
+		if pr.LastProven+1 != sub.From || pr.EndBlock != sub.To {
+			s.fail("cut", "c17/range-vs-proof", "certificate at height %d covers blocks %d..%d but carries the proof the prover gave for %d..%d", c.Height, sub.From, sub.To, pr.LastProven+1, pr.EndBlock)
+			return
+		}
+		s.rec.Stats.Inc("fep_certificates")
+	default:
+		var giHashes []byte
+		for _, ibe := range c.ImportedBridgeExits {
+			h := keccakBytes(leBytes(wireGlobalIndex(ibe)))
+			giHashes = append(giHashes, h[:]...)
+		}
+		inner := keccakBytes(giHashes)
+		commitment = keccakBytes(pad(c.NewLocalExitRoot.Value, 32), inner[:])
+		if c.AggchainData != nil && c.AggchainData.GetSignature() != nil {
+			sig = c.AggchainData.GetSignature().Value
+		}
 	}
 	if len(sig) != 65 {
 		s.fail("signature", "c10/no-signature", "certificate at height %d carries a %d byte signature", c.Height, len(sig))
@@ -595,6 +652,11 @@ func (s *senderWorld) onSubmit(sub *Submission) {
 
 // checkCut: the last block of a certificate is the largest permitted one.
 func (s *senderWorld) checkCut(sub *Submission, bs []*bridgesync.Bridge, cs []*bridgesync.Claim) {
+	if s.cfg["fep"] == 1 {
+		// the aggchain-prover flow cuts the range before it asks for the proof: judged in onProverRequest;
+		// the certificate then covers exactly the range the prover proved (c17/range-vs-proof)
+		return
+	}
 	s.l2r.mu.Lock()
 	seen := append([]uint64(nil), s.l2r.lastSeen...)
 	s.l2r.mu.Unlock()
@@ -679,7 +741,19 @@ func (s *senderWorld) checkStored(ctx string) {
 			s.fail("storage", "c10/stored-differs", "%s: re-hashing the stored copy of certificate height %d gives %s; the id computed from the wire message is %s", ctx, r.Height, parsed.Hash().Hex()[:12], wireCertID(ac.Wire).Hex()[:12])
 			return
 		}
-		if parsed.PPHashToSign() != wirePPCommitment(ac) {
+		if ac.Wire.AggchainData != nil && ac.Wire.AggchainData.GetGeneric() != nil {
+			if parsed.FEPHashToSign() != wireFEPCommitment(ac.Wire) {
+				s.fail("storage", "c10/stored-commitment", "%s: the (aggchain-proof) commitment of the stored copy differs from the one of the wire message", ctx)
+				return
+			}
+			ad, ok := parsed.AggchainData.(*agglayertypes.AggchainDataProof)
+			g := ac.Wire.AggchainData.GetGeneric()
+			if !ok || string(ad.Signature) != string(g.Signature.GetValue()) || string(ad.Proof) != string(g.GetSp1Stark().GetProof()) ||
+				ad.AggchainParams != fb32(g.AggchainParams) || string(parsed.CustomChainData) != string(ac.Wire.CustomChainData) {
+				s.fail("storage", "c10/stored-aggchain-data", "%s: the aggchain data of the stored copy of certificate height %d differs from what was sent", ctx, r.Height)
+				return
+			}
+		} else if parsed.PPHashToSign() != wirePPCommitment(ac) {
 			s.fail("storage", "c10/stored-commitment", "%s: the commitment of the stored copy differs from the one of the wire message", ctx)
 			return
 		}
@@ -695,6 +769,23 @@ func wirePPCommitment(ac *AgCert) common.Hash {
 	}
 	inner := keccakBytes(giHashes)
 	return keccakBytes(pad(ac.Wire.NewLocalExitRoot.Value, 32), inner[:])
+}
+
+// wireFEPCommitment recomputes the aggchain-proof signing commitment from the wire message:
+// keccak(newLER, keccak(concat_i(le32(globalIndex_i) || exitHash_i)), le64(height), aggchainParams).
+func wireFEPCommitment(c *v1nodetypes.Certificate) common.Hash {
+	var chunks []byte
+	for _, ibe := range c.ImportedBridgeExits {
+		chunks = append(chunks, leBytes(wireGlobalIndex(ibe))...)
+		h := refExitHashProto(ibe.BridgeExit)
+		chunks = append(chunks, h[:]...)
+	}
+	inner := keccakBytes(chunks)
+	params := keccakBytes(nil)
+	if g := c.AggchainData.GetGeneric(); g != nil {
+		params = fb32(g.AggchainParams)
+	}
+	return keccakBytes(pad(c.NewLocalExitRoot.Value, 32), inner[:], u64le(c.Height), params[:])
 }
 
 func u64le(v uint64) []byte { b := make([]byte, 8); binary.LittleEndian.PutUint64(b, v); return b }
@@ -740,10 +831,11 @@ func runSender(prop string, tr *Trace, sc *Script, rec *Recorder, scratch string
 	}
 	s.ag = NewAgglayerModel(s.w, senderNetworkID, RefAppendRoot(nil))
 	s.ag.OnSubmit = s.onSubmit
+	s.pv = &proverModel{s: s, w: s.w}
 	if v := s.startNode(); v != nil {
 		return v
 	}
-	go s.node.Start(s.ctx)
+	s.goStart()
 	s.w.Quiesce()
 	defer func() { s.stopNode() }()
 
@@ -772,9 +864,12 @@ func runSender(prop string, tr *Trace, sc *Script, rec *Recorder, scratch string
 	gen := func(r *Rand) (Op, bool) {
 		labels := s.w.ParkedLabels()
 		wts := []int{int(cfg["w_l1mine"]), int(cfg["w_l1fin"]), int(cfg["w_l1sync"]), int(cfg["w_l2block"]), int(cfg["w_epoch"]), int(cfg["w_time"]),
-			int(cfg["w_rel"]), int(cfg["w_move"]), int(cfg["w_fault"]), int(cfg["w_lost"]), int(cfg["w_crash"]), int(cfg["w_losedb"]), int(cfg["w_savefault"])}
+			int(cfg["w_rel"]), int(cfg["w_move"]), int(cfg["w_fault"]), int(cfg["w_lost"]), int(cfg["w_crash"]), int(cfg["w_losedb"]), int(cfg["w_savefault"]), int(cfg["w_pvodd"])}
 		if len(labels) == 0 {
 			wts[6], wts[8], wts[9] = 0, 0, 0
+		}
+		if s.w.FirstParked("pv") == nil {
+			wts[13] = 0
 		}
 		if s.ag.open() == nil {
 			wts[7] = 0
@@ -820,6 +915,9 @@ func runSender(prop string, tr *Trace, sc *Script, rec *Recorder, scratch string
 			return Op{K: "crash", A: []int64{0}}, true
 		case 11:
 			return Op{K: "crash", A: []int64{1}}, true
+		case 13:
+			// the prover answers with a shorter range / has no proof yet / times out
+			return Op{K: "rel", S: "pv", A: []int64{[]int64{replyStale, replyStale, replyNotFound, replyDeadline}[r.Intn(4)]}}, true
 		default:
 			return Op{K: "savefault", A: []int64{int64(1 + r.Intn(6))}}, true
 		}
@@ -827,6 +925,18 @@ func runSender(prop string, tr *Trace, sc *Script, rec *Recorder, scratch string
 
 	apply := func(op Op) *Violation {
 		rec.Stats.Inc("steps")
+		statsMu.Lock()
+		pm := s.panicMsg
+		s.panicMsg = ""
+		statsMu.Unlock()
+		if pm != "" {
+			// the process exited at start-up (storage error while checking the initial status): the supervisor restarts it
+			rec.Stats.Inc("node_exited_at_startup")
+			rec.Event("node exited: %.120s", pm)
+			if v := s.crash(false); v != nil {
+				return v
+			}
+		}
 		switch op.K {
 		case "l1mine":
 			r := NewRand(uint64(op.Arg(0)))
@@ -963,9 +1073,26 @@ func (s *senderWorld) crash(loseDB bool) *Violation {
 	if v := s.startNode(); v != nil {
 		return v
 	}
-	go s.node.Start(s.ctx)
+	s.goStart()
 	s.w.Quiesce()
 	return nil
+}
+
+// goStart runs the node's Start loop. The node panics on purpose when its start-up checks hit a
+// storage error (a process exit in production): that is a crash of this incarnation, the next op
+// finds the node down and restarts it.
+func (s *senderWorld) goStart() {
+	node, ctx := s.node, s.ctx
+	go func() {
+		defer func() {
+			if r := recover(); r != nil {
+				statsMu.Lock()
+				s.panicMsg = fmt.Sprint(r)
+				statsMu.Unlock()
+			}
+		}()
+		node.Start(ctx)
+	}()
 }
 
 // drain: faults stop, the L1 syncer catches up, verdicts are Settled, epochs tick; everything
